@@ -95,8 +95,9 @@ def datalist_job(job):
 
 
 def rowmap_job(job):
-    """materialise one TLC store: which rows are non-empty, which empty rows carry a header record"""
-    (idx, nonempty, extra, tile2, scratch) = job
+    """materialise one TLC store: which rows are non-empty, which empty rows carry a header record, which empty rows carry a
+    row record without cells"""
+    (idx, nonempty, extra, empties, tile2, scratch) = job
     warnings.simplefilter("ignore")
     from numbers_parser import Document
     from numbers_parser.generated import TSTArchives_pb2 as TST
@@ -130,9 +131,33 @@ def rowmap_job(job):
     # only the ROW header bucket: identify it through the table model
     tm_rows = row_bucket_ids(pkg)
     n = rewrite._map_messages(pkg, "TST.HeaderStorageBucket", lambda b, oid: fn(b, oid) if oid in tm_rows else False, None)
-    out = {"idx": idx, "nonempty": nonempty, "extra": extra, "tile2": tile2}
+    out = {"idx": idx, "nonempty": nonempty, "extra": extra, "empties": empties, "tile2": tile2}
     if n != 1:
         out["machinery"] = "row header bucket not found (%d)" % n
+        return out
+    # the library's writer leaves one row record per row: keep those of the non-empty rows, turn those of `empties` into records
+    # without cells, drop the others (the way Numbers stores an empty row)
+    spans = rewrite.tile_spans(pkg)
+    full, bare = {real(r) for r in nonempty}, {real(r) for r in empties}
+
+    def tfn(tile, oid):
+        if oid not in spans:
+            return False
+        tid, size, _ = spans[oid]
+        infos = []
+        for ri in tile.rowInfos:
+            row = tid * size + ri.tile_row_index
+            if row in full:
+                infos.append(TST.TileRowInfo.FromString(ri.SerializeToString()))
+            elif row in bare:
+                infos.append(rewrite.empty_record(ri, ri.tile_row_index))
+        del tile.rowInfos[:]
+        for ri in infos:
+            tile.rowInfos.add().CopyFrom(ri)
+        tile.numrows = len(infos)
+        return True
+    if rewrite._map_messages(pkg, "TST.Tile", tfn, None) < 1:
+        out["machinery"] = "tiles not found"
         return out
     pkg.save_single(base + "-rw.numbers")
     try:
@@ -185,16 +210,16 @@ def run(ctx):
         return False
 
     def h_store(line):
-        m = re.match(r'^"R <<([\d, ]*)>> <<([\d, ]*)>>"$', line)
+        m = re.match(r'^"R <<([\d, ]*)>> <<([\d, ]*)>> <<([\d, ]*)>>"$', line)
         if m:
-            stores.append(([int(x) for x in m.group(1).split(",")] if m.group(1).strip() else [],
-                           [int(x) for x in m.group(2).split(",")] if m.group(2).strip() else []))
+            stores.append(tuple([int(x) for x in m.group(k).split(",")] if m.group(k).strip() else [] for k in (1, 2, 3)))
             return True
         return False
     ctx.tlc("DataList", dl % (4 if q else 5, "none", "INVARIANT EmitList\n"), what="MC_DataList[all permutations with gaps]", stream_to=h_list, timeout=1800)
     ctx.tlc("DataList", dl % (4, "IndexOnlyIfAscending", ""), what="Bug_IndexOnlyIfAscending", expect_violation="AllIndexed", count=False)
     ctx.tlc("RowMap", rm % ("none", "INVARIANT EmitStore\n"), what="MC_RowMap[5 rows, tiles of 2]", stream_to=h_store, timeout=600)
     ctx.tlc("RowMap", rm % ("CountHeaders", ""), what="Bug_CountHeaders", expect_violation="RowAtDeclaredIndex", count=False)
+    ctx.tlc("RowMap", rm % ("SkipEmptyRecords", ""), what="Bug_SkipEmptyRecords", expect_violation="RowAtDeclaredIndex", count=False)
     ctx.tlc("Lifecycle", lc_cfg(5, kinds=["formatted"], rewrites=["permute", "rechunk", "container"]), what="MC_Lifecycle[rewrites]", timeout=600)
     # ---- spec -> code: mechanisms
     ctx.stage("mechanisms")
@@ -204,7 +229,7 @@ def run(ctx):
         doc.sheets[0].tables[0].write(k - 1, 0, "s%d" % k)
     doc.save(base_doc)
     lists = sorted(set(map(tuple, lists)))
-    stores = sorted(set((tuple(a), tuple(b)) for a, b in stores))
+    stores = sorted(set((tuple(a), tuple(b), tuple(c)) for a, b, c in stores))
     use_lists = lists if not q else rng.sample(lists, min(len(lists), 250))
     res = fixtures.pmap(datalist_job, [(i, list(l), base_doc, ctx.scratch) for i, l in enumerate(use_lists)], ctx.workers, chunksize=8)
     for r in res:
@@ -216,23 +241,25 @@ def run(ctx):
             ctx.fail({"engine": "mechanism", "clause": "datalist.lookup", "rewrite": "permute-lists", "exc": r["exc"].split(":")[0]},
                      "string list with entries in key order %s: cells read %s, expected %s %s" % (r["entries"], r["got"], r["want"], r["exc"]),
                      {"entries": r["entries"]})
-    use_stores = stores if not q else rng.sample(stores, min(len(stores), 80))
-    jobs = [(i, list(a), list(b), False, ctx.scratch) for i, (a, b) in enumerate(use_stores)]
-    jobs += [(10000 + i, list(a), list(b), True, ctx.scratch) for i, (a, b) in enumerate(use_stores[:: (8 if q else 2)])]
+    use_stores = stores if not q else rng.sample(stores, min(len(stores), 160))
+    jobs = [(i, list(a), list(b), list(c), False, ctx.scratch) for i, (a, b, c) in enumerate(use_stores)]
+    jobs += [(10000 + i, list(a), list(b), list(c), True, ctx.scratch) for i, (a, b, c) in enumerate(use_stores[:: (8 if q else 2)])]
     res = fixtures.pmap(rowmap_job, jobs, ctx.workers, chunksize=4)
     for r in res:
         ctx.evaluations += 1
         if "machinery" in r:
             raise Machinery("rowmap materialisation: " + r["machinery"])
-        ctx.distinct.add(("rm", tuple(r["nonempty"]), tuple(r["extra"]), r["tile2"]))
+        ctx.distinct.add(("rm", tuple(r["nonempty"]), tuple(r["extra"]), tuple(r["empties"]), r["tile2"]))
         if r["exc"] or r["got"] != r["want"]:
-            ctx.fail({"engine": "mechanism", "clause": "rowmap.row-index", "rewrite": "add-empty-row-headers" if r["extra"] else "drop-empty-row-headers",
+            ctx.fail({"engine": "mechanism", "clause": "rowmap.row-index",
+                      "rewrite": "add-empty-row-records" if r["empties"] else "add-empty-row-headers" if r["extra"] else "drop-empty-row-headers",
                       "exc": r["exc"].split(":")[0]},
-                     "rows stored %s, empty rows with header records %s (two tiles: %s): rows read %s, expected %s %s"
-                     % (r["nonempty"], r["extra"], r["tile2"], r["got"], r["want"], r["exc"]), {"nonempty": r["nonempty"], "extra": r["extra"], "tile2": r["tile2"]})
+                     "rows stored %s, empty rows with header records %s, empty rows with row records %s (two tiles: %s): rows read %s, expected %s %s"
+                     % (r["nonempty"], r["extra"], r["empties"], r["tile2"], r["got"], r["want"], r["exc"]),
+                     {"nonempty": r["nonempty"], "extra": r["extra"], "empties": r["empties"], "tile2": r["tile2"]})
     ctx.extra["mechanism_cases"] = {"lists_from_tlc": len(lists), "lists_replayed": len(use_lists), "stores_from_tlc": len(stores), "stores_replayed": len(jobs)}
     ctx.sample({"datalist_entries_key_order": list(use_lists[len(use_lists) // 2])})
-    ctx.sample({"rowmap": {"nonempty": list(use_stores[0][0]), "empty_rows_with_header": list(use_stores[0][1])}})
+    ctx.sample({"rowmap": {"nonempty": list(use_stores[0][0]), "empty_rows_with_header": list(use_stores[0][1]), "empty_rows_with_record": list(use_stores[0][2])}})
     # ---- metamorphic relation over documents
     ctx.stage("documents")
     docs = fixtures.readable_fixtures(ctx.workers) + [fixtures.TEMPLATE]
@@ -244,7 +271,7 @@ def run(ctx):
     for p in docs:
         todo = [[w] for w in singles]
         if q:
-            todo = [[w] for w in rng.sample(singles, 3)] + [["permute-lists"], ["add-empty-row-headers"]]
+            todo = [[w] for w in rng.sample(singles, 3)] + [["permute-lists"], ["add-empty-row-headers"], ["add-empty-row-records"]]
         ncomp = 1 if q else 6
         for _ in range(ncomp):
             todo.append(rng.sample(singles, rng.randint(2, 3)))
